@@ -79,17 +79,23 @@ def opsC07 : Handler := fun st fields =>
   | ["c07.predict", f, v, om, opsS, flagsS, outcome, nleaves, sizesS, shapesS, scalesS] =>
     let raised := outcome != "ok"
     let n := nleaves.toNat?.getD 0
-    match Generated.ruleRows.find? fun r =>
-        r.func == f && r.variant == v && r.outMode == om && c07OpsStr r.operands == opsS
-          && c07FlagsStr r.flags == flagsS && r.raised == raised && (raised || r.leaves.length == n) with
-    | none => some (st, "norow")
+    let cands := Generated.ruleRows.filter fun r =>
+        r.func == f && r.variant == v && r.outMode == om && c07OpsStr r.operands == opsS && c07FlagsStr r.flags == flagsS
+    if cands.isEmpty then some (st, "norow") else
+    match cands.find? fun r => r.raised == raised && (raised || r.leaves.length == n || (r.tailRepeats && n ≥ 2)) with
+    | none => some (st, "other-outcome")
     | some row =>
       if row.raised then some (st, "ok\traised") else
       let shapes := c07Shapes shapesS
       let scales := c07Scales scalesS
       let u : String → Float := fun g => ((scales.find? (·.1 == g)).map (·.2)).getD 1.0
       let sizes := if sizesS == "" then [] else (sizesS.splitOn ",").map fun s => s.toNat?.getD 0
-      let outs := (row.leaves.zip sizes).map fun (leaf, sz) =>
+      let lvs := if row.tailRepeats then
+          (match row.leaves with
+           | [h, r] => h :: List.replicate (n - 1) r
+           | l => l)
+        else row.leaves
+      let outs := (lvs.zip sizes).map fun (leaf, sz) =>
         let env := c07Env shapes (c07Operands opsS) sz
         s!"{if leaf.carries then 1 else 0}|{c07LabelOut u env leaf.expo}"
       let ol := match row.outLabel with
